@@ -61,7 +61,11 @@ type caseT struct {
 
 const replayNote = "schedules are not reproducible: replay re-runs this configuration; the interleaving may differ"
 
-const watchdog = 90 * time.Second
+const watchdog = 45 * time.Second
+
+// watchdogsFired: see the main loop - after two abandoned cases the rest of
+// this process's cases are skipped so that its findings are still written.
+var watchdogsFired atomic.Int32
 
 var clock atomic.Int64
 
@@ -542,6 +546,7 @@ func runPool(r *h.Run, c caseT) {
 	}
 	close(gate)
 	if !waitTimeout(&wg, watchdog) {
+		watchdogsFired.Add(1)
 		r.Inconclusive(fmt.Sprintf("kind=pool case=%d submitters did not return within the watchdog; stacks in log", c.Index))
 		fmt.Println(h.Stacks())
 		return
@@ -566,6 +571,7 @@ func runPool(r *h.Run, c caseT) {
 	}
 	ok, decided := waitDone(done, func() int64 { return started.Load() + ended.Load() })
 	if !decided {
+		watchdogsFired.Add(1)
 		r.Inconclusive(fmt.Sprintf("kind=pool case=%d pool never became idle within the watchdog: no verdict", c.Index))
 		if sc == 0 {
 			p.Stop()
@@ -752,12 +758,14 @@ func runCapacity(r *h.Run, c caseT) {
 	}
 	total := int64(per * c.Submitters)
 	if !waitTimeout(&wg, watchdog) {
+		watchdogsFired.Add(1)
 		r.Inconclusive(fmt.Sprintf("kind=capacity case=%d burst submitters did not return within the watchdog", c.Index))
 		return
 	}
 	okb, dec := waitDone(func() bool { return ended.Load() >= total }, func() int64 { return started.Load() + ended.Load() })
 	cfg := fmt.Sprintf("%s burst=%d tasks from %d submitters (max running %d, fork failures %d)", ctor(c), total, c.Submitters, maxRunning.Load(), hs.forkFails.Load())
 	if !dec {
+		watchdogsFired.Add(1)
 		r.Inconclusive(fmt.Sprintf("kind=capacity case=%d burst never drained within the watchdog", c.Index))
 		p.Stop()
 		return
@@ -782,6 +790,7 @@ func runCapacity(r *h.Run, c caseT) {
 	p.Stop()
 	switch {
 	case !b.decided:
+		watchdogsFired.Add(1)
 		r.Inconclusive(fmt.Sprintf("kind=capacity case=%d barrier neither completed nor settled within the watchdog", c.Index))
 	case !b.complete:
 		r.Violate(pre+":capacity-not-recovered", fmt.Sprintf("%s: a fresh pool runs K0=%d mutually waiting tasks together; after the burst and an idle period (all burst tasks done, workers exited) only %d of a barrier of %d were ever running together - stuck state (arrival count unchanged over >=20 samples/>=2 s of idle CPU), barrier then released by the harness", cfg, k0, b.arrived, k0), c)
@@ -953,6 +962,7 @@ func runAsync(r *h.Run, c caseT) {
 	}
 	close(gate)
 	if !waitTimeout(&wg, watchdog) {
+		watchdogsFired.Add(1)
 		r.Inconclusive(fmt.Sprintf("kind=async case=%d producers did not return within the watchdog", c.Index))
 		return
 	}
@@ -970,6 +980,7 @@ func runAsync(r *h.Run, c caseT) {
 	}
 	ok, decided := waitDone(done, func() int64 { return started.Load() + ended.Load() })
 	if !decided {
+		watchdogsFired.Add(1)
 		r.Inconclusive(fmt.Sprintf("kind=async case=%d queue never settled within the watchdog", c.Index))
 		return
 	}
@@ -1118,6 +1129,13 @@ func main() {
 		for i := 0; i < k.n; i++ {
 			idx++
 			if !r.Mine(idx) || (*only != "" && *only != k.kind) {
+				continue
+			}
+			if watchdogsFired.Load() >= 2 {
+				if watchdogsFired.Load() < 1000 {
+					r.Inconclusive(fmt.Sprintf("watchdogs fired in %d cases of this process: the remaining cases (from %s %d) were skipped", watchdogsFired.Load(), k.kind, i))
+					watchdogsFired.Store(1000)
+				}
 				continue
 			}
 			runCase(r, genCase(r, k.kind, i))
